@@ -7,6 +7,7 @@ import (
 	"strings"
 
 	"github.com/berquerant/crd/op"
+	"gopkg.in/yaml.v3"
 
 	"verif/cli"
 	"verif/ev"
@@ -31,6 +32,10 @@ func init() {
 var c14Conv = map[byte]op.KeyConversion{'p': op.ParallelKey, 'r': op.RelativeKey, 'd': op.DominantKey, 's': op.SubDominantKey}
 
 // refChain composes the steps by pitch-class arithmetic and returns every supported spelling of the target.
+// c14Supported is the set of keys crd supports: the 28 of the statement plus whatever else
+// `info key list` offers (a key that has a scale is a key the conversions must know).
+var c14Supported = append([]string{}, theory.SupportedKeyNames...)
+
 func refChain(key string, chain string) []string {
 	k, _ := theory.ParseKey(key)
 	pc, minor := k.Tonic.PC(), k.Minor
@@ -38,7 +43,14 @@ func refChain(key string, chain string) []string {
 		cur := theory.Key{Tonic: noteOfPC(pc), Minor: minor}
 		pc, minor = cur.Step(chain[i])
 	}
-	return theory.SpellingsOf(pc, minor)
+	var r []string
+	for _, s := range c14Supported {
+		if sk, ok := theory.ParseKey(s); ok && sk.Minor == minor && sk.Tonic.PC() == pc {
+			r = append(r, s)
+		}
+	}
+	sort.Strings(r)
+	return r
 }
 
 func noteOfPC(pc int) theory.Note {
@@ -122,7 +134,24 @@ func c14Eval(e *Env, c c14Case, report bool) ([]string, bool) {
 func runC14(e *Env) {
 	e.R.Rule = "explicit-state: the 28 keys x {p,r,d,s} from every key (every spelling of every circle member is a state of its own), each edge checked; all chains over {p,r,d,s} up to length 6 from all 28 keys in-process (152 880), up to length 3/4 through the real binary, single-letter chains of length 12, 24, 48; laws asserted directly. distinct = (key, chain); non-trivial = every case (each compares a result set)"
 	e.R.Assume("reference: pitch-class arithmetic (d +7, s -7, r -/+3 with mode switch, p mode switch) and the set of supported spellings of a pitch class and mode (ref/theory); the printed set is compared as a set (order is C12's business)")
-	keys := theory.SupportedKeyNames
+	// keys beyond the 28 that the implementation offers
+	if lr := cli.In("", "info", "key", "list"); lr.OK() {
+		var ys []yamlScale
+		if yaml.Unmarshal(lr.Stdout, &ys) == nil {
+			have := map[string]bool{}
+			for _, s := range c14Supported {
+				have[s] = true
+			}
+			for _, y := range ys {
+				if _, ok := theory.ParseKey(y.Key); ok && !have[y.Key] {
+					have[y.Key] = true
+					c14Supported = append(c14Supported, y.Key)
+					e.R.Note("key beyond the 28 offered by `info key list`: " + y.Key)
+				}
+			}
+		}
+	}
+	keys := c14Supported
 	// graph: single steps from every spelling
 	var edges []c14Case
 	for _, k := range keys {
